@@ -317,11 +317,16 @@ where
     /// # Safety
     /// `entity_allocator` must contain entries for each of the entities stored in the archetypes.
     pub(crate) unsafe fn clear(&mut self, entity_allocator: &mut entity::Allocator<R>) {
+        let previously_free = entity_allocator.free_len();
         for archetype in self.iter_mut() {
             // SAFETY: The `entity_allocator` is guaranteed to have an entry for each entity stored
             // in `archetype`.
             unsafe { archetype.clear(entity_allocator) };
         }
+        // The order in which the archetypes are visited depends on where their identifiers happen
+        // to be allocated. The slots freed above are ordered, so that the identifiers allocated
+        // afterwards do not depend on it.
+        entity_allocator.sort_free_from(previously_free);
     }
 
     /// Decrease the allocated capacity to the smallest amount required for the stored data.
